@@ -161,6 +161,9 @@ def run_workers(exe, kind, seed, count, budget_s, nworkers=None, extra=(), maxsi
             p.kill()
             p.wait()
             infos["timeouts"] += 1
+            cp = os.path.join(outdir, "w%d.current.case" % w)
+            if os.path.exists(cp):
+                infos.setdefault("hung_cases", []).append(open(cp).read())
         logf.close()
         with open(os.path.join(outdir, "w%d.log" % w), errors="replace") as f:
             out = f.read()
